@@ -357,9 +357,24 @@ def level_pairing(ctx, c, o):
     def level_delta(an, n, before):
         """(sign, abstract amount) of a level update at node n, or None"""
         a = n.ast
+
+        def amount_of(expr, frame):
+            """(sign, abstract amount) of an amount expression: a leading minus flips the sign, a parameter of an inlined helper
+            (`_adjust_level(-part_count)`) is followed to the argument in the caller's frame"""
+            if isinstance(expr, ast.UnaryOp) and isinstance(expr.op, ast.USub):
+                s_, v_ = amount_of(expr.operand, frame)
+                return ('-' if s_ == '+' else '+'), v_
+            if isinstance(expr, ast.Name) and expr.id in frame.argmap and frame.argmap[expr.id][1] is not None \
+                    and not any(isinstance(x, ast.Name) and isinstance(x.ctx, ast.Store) and x.id == expr.id for x in ast.walk(frame.func)):
+                e2, fr2 = frame.argmap[expr.id]
+                return amount_of(e2, fr2)
+            return '+', an.ev(expr, before, frame)
         if isinstance(a, ast.AugAssign) and is_self_attr(a.target, '_level'):
             sign = '+' if isinstance(a.op, ast.Add) else '-' if isinstance(a.op, ast.Sub) else '?'
-            return sign, an.ev(a.value, before, n.frame)
+            s2, v2 = amount_of(a.value, n.frame)
+            if sign in '+-' and s2 == '-':
+                sign = '-' if sign == '+' else '+'
+            return sign, v2
         if isinstance(a, ast.Assign) and any(is_self_attr(t, '_level') for t in a.targets) and n.frame.func.name != '__init__':
             v = a.value
             if isinstance(v, ast.BinOp) and isinstance(v.op, (ast.Add, ast.Sub)):
